@@ -544,5 +544,137 @@ Section DFSProofs.
         eapply succ_closed. apply Hincl. simpl. auto.
       - rewrite app_length. simpl. lia.
     Qed.
+
+    Lemma dfs_walk_fuel k : fuel_rec k (dfs_walk eqb succ k).
+    Proof.
+      induction k as [|k IH]; intros r st v Hnd Hin Hlen.
+      - exfalso. pose proof (NoDup_incl_length Hnd Hin). simpl in Hlen. lia.
+      - simpl. eapply dfs_loop_fuel; eauto. apply incl_refl.
+    Qed.
+
+    Lemma path_last_in x l y : path x l y -> l <> [] -> In y U.
+    Proof.
+      induction 1 as [|x y l z He Hp IH]; intros Hne; [congruence|].
+      destruct l as [|w l'].
+      - inversion Hp; subst. eapply succ_closed; eauto.
+      - apply IH. discriminate.
+    Qed.
+
+    Lemma path_incl x l y : path x l y -> incl l U.
+    Proof.
+      induction 1 as [|x y l z He Hp IH]; intros w Hw; [destruct Hw|].
+      destruct Hw as [<-|Hw]; auto. eapply succ_closed; eauto.
+    Qed.
+
+    (* check_include_cycles succeeds for every start iff the relation has no cycle;
+       fuel = number of nodes suffices *)
+    Theorem dfs_spec fuel :
+      length U <= fuel ->
+      ((forall t, In t U -> exists v, dfs_check eqb succ fuel t = Ok v) <-> acyclic edge).
+    Proof.
+      intros Hf. split.
+      - intros H x Hc. assert (In x U) as Hx.
+        { destruct Hc as [l [Hne Hp]]. eapply path_last_in; eauto. }
+        destruct (H x Hx) as [v Hv].
+        eapply dfs_check_ok_clean; eauto. apply reach_refl.
+      - intros Hac t Ht. destruct (dfs_check eqb succ fuel t) as [v|e] eqn:E; [eauto|].
+        exfalso. unfold dfs_check in E.
+        destruct (dfs_walk_only _ _ _ _ _ E) as [-> | ->].
+        + destruct (dfs_check_err_cycle fuel t E) as [y [_ Hy]]. exact (Hac y Hy).
+        + revert E. apply dfs_walk_fuel.
+          * constructor; [intros []|constructor].
+          * intros z [<-|[]]. exact Ht.
+          * simpl. lia.
+    Qed.
+
+    Theorem dfs_check_circular_iff fuel t :
+      length U <= fuel -> In t U ->
+      (dfs_check eqb succ fuel t = Err EkCircularInclude <-> leads_to_cycle edge t).
+    Proof.
+      intros Hf Ht. split; [apply dfs_check_err_cycle|].
+      intros [y [Hr Hy]]. destruct (dfs_check eqb succ fuel t) as [v|e] eqn:E.
+      - exfalso. eapply dfs_check_ok_clean; eauto.
+      - unfold dfs_check in E. destruct (dfs_walk_only _ _ _ _ _ E) as [-> | ->]; auto.
+        exfalso. revert E. apply dfs_walk_fuel.
+        + constructor; [intros []|constructor].
+        + intros z [<-|[]]. exact Ht.
+        + simpl. lia.
+    Qed.
+
+    (* ---------------- ranks: the height of a node in an acyclic graph decreases along edges *)
+
+    Lemma In_list_max a l : In a l -> a <= list_max l.
+    Proof.
+      induction l as [|b l IH]; intros Hin; [destruct Hin|].
+      simpl. destruct Hin as [<-|Hin]; [lia|]. specialize (IH Hin). lia.
+    Qed.
+
+    Lemma list_max_witness n l : n < list_max l -> exists a, In a l /\ n < a.
+    Proof.
+      induction l as [|b l IH]; simpl; intros H; [lia|].
+      destruct (Nat.max_dec b (list_max l)) as [E|E]; rewrite E in H.
+      - exists b. auto.
+      - destruct (IH H) as [a [Ha Hlt]]. exists a. auto.
+    Qed.
+
+    Lemma height_stable f : forall x, height succ f x < f -> height succ (S f) x = height succ f x.
+    Proof.
+      induction f as [|f IH]; intros x H; [lia|].
+      cbn [height] in H.
+      change (S (list_max (map (height succ (S f)) (succ x))) = S (list_max (map (height succ f) (succ x)))).
+      f_equal. f_equal. apply map_ext_in. intros y Hy. apply IH.
+      assert (height succ f y <= list_max (map (height succ f) (succ x))) by (apply In_list_max; apply in_map; auto).
+      lia.
+    Qed.
+
+    Lemma height_path f : forall x k, k < height succ f x -> exists l y, path x l y /\ length l = k.
+    Proof.
+      induction f as [|f IH]; intros x k H; [simpl in H; lia|].
+      destruct k as [|k].
+      - exists [], x. split; [constructor|reflexivity].
+      - cbn [height] in H. apply Nat.succ_lt_mono in H.
+        destruct (list_max_witness _ _ H) as [a [Ha Hlt]].
+        apply in_map_iff in Ha. destruct Ha as [y [<- Hy]].
+        destruct (IH y k Hlt) as (l & z & Hp & Hl).
+        exists (y :: l), z. split; [econstructor; eauto|simpl; congruence].
+    Qed.
+
+    Lemma path_split x l1 z l2 y : path x (l1 ++ z :: l2) y -> path x (l1 ++ [z]) z /\ path z l2 y.
+    Proof.
+      revert x. induction l1 as [|a l1 IH]; intros x H; simpl in *.
+      - inversion H; subst. split; auto. econstructor; eauto. constructor.
+      - inversion H; subst. destruct (IH _ H5) as [H1 H2]. split; auto. econstructor; eauto.
+    Qed.
+
+    Lemma acyclic_path_nodup : acyclic edge -> forall x l y, path x l y -> NoDup l.
+    Proof.
+      intros Hac x l y Hp. induction Hp as [|x y l z He Hp IH]; [constructor|].
+      constructor; auto. intros Hin. apply in_split in Hin. destruct Hin as (l1 & l2 & ->).
+      destruct (path_split _ _ _ _ _ Hp) as [H1 _].
+      apply (Hac y). exists (l1 ++ [y]). split; [destruct l1; discriminate|exact H1].
+    Qed.
+
+    Lemma height_bound : acyclic edge -> forall f x, height succ f x <= S (length U).
+    Proof.
+      intros Hac f x. destruct (le_lt_dec (height succ f x) (S (length U))) as [|Hlt]; auto.
+      exfalso. destruct (height_path f x (S (length U)) Hlt) as (l & y & Hp & Hl).
+      pose proof (acyclic_path_nodup Hac _ _ _ Hp) as Hnd.
+      pose proof (NoDup_incl_length Hnd (path_incl _ _ _ Hp)). lia.
+    Qed.
+
+    Definition rank (x : A) : nat := height succ (S (S (length U))) x.
+
+    Theorem rank_decreases : acyclic edge -> forall x y, edge x y -> rank y < rank x.
+    Proof.
+      intros Hac x y He. unfold rank. set (F := S (S (length U))).
+      assert (height succ (S F) x = height succ F x) as Hst.
+      { apply height_stable. pose proof (height_bound Hac F x) as Hb. unfold F in *. lia. }
+      rewrite <- Hst. cbn [height].
+      assert (height succ F y <= list_max (map (height succ F) (succ x))) by (apply In_list_max; apply in_map; exact He).
+      lia.
+    Qed.
+
+    Lemma rank_bound : acyclic edge -> forall x, rank x <= S (length U).
+    Proof. intros Hac x. apply height_bound. exact Hac. Qed.
   End Fuel.
 End DFSProofs.
